@@ -78,6 +78,20 @@ fn c05() -> &'static dyn Check {
     })
 }
 
+static C02M: migsim::MigrationCheck = migsim::MigrationCheck { prop: "C02" };
+static C02_COMPOSITE: std::sync::OnceLock<framework::CompositeCheck> = std::sync::OnceLock::new();
+
+fn c02() -> &'static dyn Check {
+    C02_COMPOSITE.get_or_init(|| framework::CompositeCheck {
+        prop: "C02",
+        engine: "E2 cluster-sim (routing: probe rounds on synced clusters) + E2 cluster-sim (migration traffic: redirection bound)",
+        parts: vec![(&C02, 1), (&C02M, 2)],
+        quick: (300, 60),
+        thorough: (18_000, 1500),
+        level: "exploration",
+    })
+}
+
 static C14L: proxysim::ProxyCheck = proxysim::ProxyCheck { prop: "C14" };
 static C14_COMPOSITE: std::sync::OnceLock<framework::CompositeCheck> = std::sync::OnceLock::new();
 
@@ -109,7 +123,7 @@ fn lookup(id: &str) -> Option<&'static dyn Check> {
         "C05" => c05(),
         "C09" => &C09,
         "C20" => &C20,
-        "C02" => &C02,
+        "C02" => c02(),
         "C14" => c14(),
         "C07" => &C07,
         "C13L" => &C13L,
